@@ -294,6 +294,10 @@ def stale_thread_findings(run, log, w):
             key = 'stale-thread/error-teardown-closes-successor'
         elif foreign[3] == 'io.read':
             key = 'stale-thread/reads-successor-transport'
+        elif foreign[3] == 'io.send' and path.endswith(
+                '_react>react>write_packet>_write_packet'):
+            # the forced write of a reaction (the encryption response)
+            key = 'stale-thread/reaction-forced-write-on-successor-transport'
         else:
             key = 'threads/io-on-foreign-transport/%s/via:%s' % (foreign[3],
                                                                  path)
@@ -1296,7 +1300,7 @@ def reaction_sites():
     return sites
 
 
-def hold_sweep_case(run, rng, pv, site_idx):
+def hold_sweep_case(run, rng, pv, site_idx, reconnect=False):
     """Delay injection, one statement at a time, over the library's own
     reactions: the networking thread is held at the chosen statement (first
     time it gets there) while a user thread calls disconnect().  After that
@@ -1342,6 +1346,21 @@ def hold_sweep_case(run, rng, pv, site_idx):
                  allowed_versions={pv}, handle_exception=rec.handle_exception,
                  handle_exit=rec.handle_exit)
         conn.vf_log = rec.log
+        conn.vf_send_hook = lambda kind, proxy, data: rec.log.emit(
+            'io.send.path', gen=proxy.gen, path=call_chain())
+        pc.observe_options(conn)
+        from minecraft.networking.connection import NetworkingThread
+        real_write_packet = conn.write_packet
+
+        def observed_write_packet(packet, force=False):
+            cur = threading.current_thread()
+            if isinstance(cur, NetworkingThread) and cur.interrupt and (
+                    conn.new_networking_thread is not None or
+                    conn.networking_thread is not cur):
+                rec.log.emit('state.queue', cls=type(packet).__name__,
+                             force=force, stale=True)
+            return real_write_packet(packet, force=force)
+        conn.write_packet = observed_write_packet
         mon.use_tool_id(TOOL, 'vf-hold-sweep')
         mon.register_callback(TOOL, mon.events.LINE, on_line)
         mon.set_local_events(TOOL, code, mon.events.LINE)
@@ -1381,15 +1400,79 @@ def hold_sweep_case(run, rng, pv, site_idx):
             except Exception as e:
                 result['raised'] = e
             result['generation'] = getattr(conn, 'vf_generation', 0)
+            if reconnect:
+                H.next_mode = 'hold'
+                H.threshold, H.plugin_request = None, False
+                try:
+                    conn.connect()
+                except Exception as e:
+                    result['connect_raised'] = e
         t = threading.Thread(target=user, name='user-disconnect', daemon=True)
         t.start()
         t.join(0.3)
+        if reconnect and not t.is_alive():
+            # let the successor get as far as it can while its predecessor
+            # is still held (it waits for it to end)
+            time.sleep(0.05)
         release.set()
         t.join(10.0)
         if t.is_alive():
             run.violation('disconnect/blocked', 'disconnect() did not return '
                           'within 10 s of the networking thread going on',
                           dict(w, threads=pc.dump_threads()[-600:]))
+            return None
+        if reconnect:
+            # ---- disconnect(); connect() by the user thread ------------------
+            w['user_calls'] = 'disconnect(); connect()'
+            run.count('hold_sweep_reconnect_cases')
+            run.seen('hold_sweep_reconnect_sites', label)
+            if 'raised' in result or 'connect_raised' in result:
+                run.violation('reconnect/user-thread/held-in-reaction/raised',
+                              'disconnect() or the connect() after it raised',
+                              dict(w, raised=repr(result.get('raised')),
+                                   connect_raised=repr(result.get(
+                                       'connect_raised'))))
+                return None
+            ok = pc.wait_for(lambda: any(getattr(io, 'phase', '') == 'play'
+                                         and not io.eof for io in H.ios[1:]),
+                             8.0)
+            live = next((io for io in H.ios[1:][::-1]
+                         if getattr(io, 'phase', '') == 'play'), None)
+            ok = bool(ok and live is not None and H.alive(live))
+            stale = stale_thread_findings(run, rec.log, w)
+            writes = [(k, pl) for _s, _r, k, pl in rec.log.events
+                      if k in ('state.options', 'state.transport',
+                               'state.queue') and pl.get('stale')
+                      and not (k == 'state.queue' and pl.get('force'))]
+            if writes and not stale:
+                kind, pl = writes[0]
+                key = {'state.options':
+                       'stale-thread/set-compression-alters-successor',
+                       'state.transport':
+                       'stale-thread/encryption-wraps-successor-transport',
+                       'state.queue':
+                       'stale-thread/reaction-queues-packet-for-successor'
+                       }[kind]
+                if kind == 'state.queue' and ok:
+                    # (an answer queued for the successor that it could send
+                    # without harm, e.g. after its own login had finished)
+                    key = None
+                    run.count('stale_queue_appends_without_effect')
+            if writes and not stale and key is not None:
+                run.violation(key, 'an interrupted networking thread, still '
+                              'reacting to a packet it had read, changed state '
+                              'of the successor connection (framing flags, '
+                              'transport objects or outgoing queue)',
+                              dict(w, write=pl, successor_works=ok))
+                stale = True
+            if not ok and not stale:
+                run.violation('reconnect/user-thread/held-in-reaction',
+                              'disconnect(); connect() from a user thread '
+                              'while the networking thread was inside a '
+                              'reaction: the new session does not work',
+                              dict(w, exc=repr(rec.exceptions[:2]),
+                                   phases=[getattr(io, 'phase', None)
+                                           for io in H.ios]))
             return None
         time.sleep(0.2)
         settled = pc.wait_idle(conn, 5.0)
@@ -1978,6 +2061,16 @@ def run(run):
         run.case(('hold-sweep', i))
         if err:
             run.inconclusive_because('hold sweep %d: %s' % (i, err))
+        # the same position, the user thread reconnecting at once
+        for attempt in range(3):
+            err = hold_sweep_case(run, rng, (757, 404, 340, 47)[i % 4], i,
+                                  reconnect=True)
+            if err is None:
+                break
+        run.case(('hold-sweep-reconnect', i))
+        if err:
+            run.inconclusive_because('hold sweep (reconnect) %d: %s'
+                                     % (i, err))
     for i in range(48 if thorough else 16):
         if not run.mine(i):
             continue
